@@ -134,6 +134,30 @@ def split_renderings(q, tier):
                 cur.append(q[i])
         parts.append(' '.join(cur))
         yield parts, 'split'
+    # the way lists are usually typed: the comma glued to the word before it (`from lib, lib64`, `name, size`)
+    if ',' in q[1:]:
+        g = []
+        for t in q:
+            if t == ',' and g:
+                g[-1] += ','
+            else:
+                g.append(t)
+        yield list(g), 'split-glued-comma'
+        yield [' '.join(g)], 'glued-comma'
+        groot, inr = set(), False
+        for i, t in enumerate(g):
+            tl = t.lower()
+            if tl == 'from':
+                inr = True
+                groot.add(i + 1)
+            elif tl in ('where', 'order', 'group', 'limit', 'into'):
+                inr = False
+            elif inr and t.endswith(','):
+                groot.add(i + 1)
+        for i in range(1, len(g)):
+            if i in groot and i + 1 < len(g):
+                continue        # a word that starts with a root and goes on (see above)
+            yield [' '.join(g[:i]), ' '.join(g[i:])], 'split-glued-comma'
 
 
 def sub_ident(tok, old, new):
